@@ -277,7 +277,7 @@ func (s *scn) applyAuditCycle(st CStep) {
 // bind -> binding)
 var transitionalOf = map[string]string{"register": "registering", "update": "updating", "freeze": "freezing", "activate": "activating", "logout": "logouting", "bind": "binding"}
 
-var objKeyPrefix = map[string]string{"appchain_mgr": "chain:", "service_mgr": "svc:", "role_mgr": "role:", "node_mgr": "node:"}
+var objKeyPrefix = map[string]string{"appchain_mgr": "chain:", "service_mgr": "svc:", "role_mgr": "role:", "node_mgr": "node:", "rule_mgr": "rule:"}
 
 // checkOpenProposalStatus: an object governed by a proposal that is open for voting is in the transitional status of
 // that proposal's operation; it leaves it only when that proposal is approved, rejected, withdrawn or suspended by a
@@ -304,6 +304,9 @@ func (gm *govModel) checkOpenProposalStatus(h uint64, curSt map[string]string, t
 		}
 		pre, ok := objKeyPrefix[pv.Typ]
 		want := transitionalOf[pv.EventType]
+		if pv.Typ == "rule_mgr" && pv.EventType == "update" {
+			want = "binding" // a master-rule update: the proposed rule is being bound (the old master is unbinding)
+		}
 		if !ok || want == "" {
 			continue
 		}
